@@ -148,7 +148,7 @@ func (c *Conn) sendGlued(last *Pkt, raw []byte, glued []resp, eofAfter bool) {
 	c.busyUntil = t0
 	c.mu.Unlock()
 	fn := func() {
-		if c.isSilent() {
+		if c.isSilent() && !c.exemptFromSilence(last) {
 			return
 		}
 		if !c.alive() {
